@@ -456,6 +456,9 @@ class Fn:
                 x = a["inner"][0]
                 while x.get("kind") == "ParenExpr": x = x["inner"][0]
                 if x.get("kind") == "DeclRefExpr": return x["referencedDecl"]["name"]
+            # a substdio* / struct qmail* parameter: the stream's lists are parameters of run under the parameter's name
+            if a.get("kind") == "DeclRefExpr" and a["referencedDecl"]["name"] in self.structs and a["referencedDecl"]["name"] not in getattr(self, "gstructs", []):
+                return a["referencedDecl"]["name"]
             raise Unsupported(nm + " on something that is not the address of a file-scope structure")
         def ensure(nm_, arr):
             # the descriptor's input, read position, output and failure flag are file-scope state: further parameters of run,
@@ -464,7 +467,7 @@ class Fn:
                 self.vtype[nm_] = "char *" if arr else "int"
                 if arr: self.arrays.append(nm_); self.base[nm_] = nm_
                 else: self.vars.append(nm_)
-                self.globals_ = getattr(self, "globals_", []) + [nm_]
+                if nm_.split("__")[0] not in [p_["name"] for p_ in self.params]: self.globals_ = getattr(self, "globals_", []) + [nm_]
         if nm == "substdio_get":
             # reads the next byte of the descriptor's input (the list in_<ss>); 0 at end of input - or, where the program's read
             # function exits at end of input (option eofdie), the run ends with code -9
@@ -495,6 +498,22 @@ class Fn:
             else:
                 l3, base, off, s1 = self.ptr(args[1], s1); l2 = l2 + l3
                 data = "(firstn (Z.to_nat %s) (skipn (Z.to_nat %s) (a_%s %s)))" % (n, off, base, s1)
+            s2 = self.fresh()
+            return l2 + ["let %s := set_a_%s__out %s (a_%s__out %s ++ %s) in" % (s2, ss, s1, ss, s1, data)], "(0)", s2
+        if nm in ("substdio_puts", "substdio_bputs", "qmail_puts"):
+            # the C string at the argument: the bytes before the first NUL (cstrz); with checked accesses, a string with no NUL inside
+            # its array is recorded as an access outside it
+            ss = io_struct(args[0]); ensure(ss + "__out", True)
+            lit = self.str_literal(args[1]); s1 = s; l2 = []
+            if lit is not None: data = "(cstrz %s)" % lit
+            else:
+                l2, base, off, s1 = self.ptr(args[1], s1)
+                if base is None: raise Unsupported(nm + " of a null pointer")
+                data = "(cstrz (skipn (Z.to_nat %s) (a_%s %s)))" % (off, base, s1)
+                if self.chk:
+                    s3 = self.fresh()
+                    l2 = l2 + ["let %s := set_v__oob %s (Z.lor (v__oob %s) (b2z (negb (andb (0 <=? %s) (existsb (Z.eqb 0) (skipn (Z.to_nat %s) (a_%s %s))))))) in" % (s3, s1, s1, off, off, base, s1)]
+                    s1 = s3
             s2 = self.fresh()
             return l2 + ["let %s := set_a_%s__out %s (a_%s__out %s ++ %s) in" % (s2, ss, s1, ss, s1, data)], "(0)", s2
         if nm in ("stralloc_append", "stralloc_copys"):
